@@ -9,6 +9,7 @@ NOT decided.
 """
 import ast
 
+from ..astx import code
 from ..astx import walk_no_nested, dotted, call_name, self_attr, func_params, parent, ancestors, dominating_conditions, \
     flatten_conditions, kwarg
 from ..core import norm, Inconclusive
@@ -90,7 +91,7 @@ def e10(ctx):
         # plain-text markers
         if cname in ("Remove", "Insert"):
             marker = "REMOVE_STRING" if cname == "Remove" else "INSERT_STRING"
-            body = ast.unparse(f.node).replace(" ", "")
+            body = code(f.node).replace(" ", "")
             seq = f"printer.write(self.{marker})\nformatter.print(printer,self.{'from_node' if cname == 'Remove' else 'to_insert'},False)\nprinter.write(self.{marker})"
             if seq in body.replace("    ", ""):
                 ctx.proved("E10", f.file, f"{cname}.print", f.node, f"{cname} text markers", f"{marker} is written before and after the content when colour is off")
@@ -100,7 +101,7 @@ def e10(ctx):
     # zero-cost match prints unmarked
     mq = m.need_class("Match")
     mp = m.method(mq, "print")
-    t = ast.unparse(mp.node).replace(" ", "")
+    t = code(mp.node).replace(" ", "")
     if "ifself.bounds()>Range(0,0):" in t and "else:\nformatter.print(printer=printer,node_or_edit=self.to_node,with_edits=False)" in t.replace("    ", ""):
         ctx.proved("E10", mp.file, "Match.print", mp.node, "unchanged prints unmarked", "marks only when the match has a positive cost")
     else:
@@ -282,7 +283,7 @@ def e9_json(ctx):
                       f"as change marks, control characters) reach the output raw")
     for name in ("write_start_quote", "write_end_quote"):
         f = m.method(jq, name)
-        t = ast.unparse(f.node).replace(" ", "")
+        t = code(f.node).replace(" ", "")
         if f.cls == jq and "printer.write('\"')" in t and "if" not in t.split("'''")[-1].split('"""')[-1].replace("is_quoted", ""):
             ctx.proved("E9", f.file, f"JSONStringFormatter.{name}", f.node, name, "the quote is written unconditionally")
         else:
@@ -548,7 +549,7 @@ def e10c(ctx):
     if esc is None or len(texts) != 2:
         ctx.inconclusive("E10c", "graphtage/json.py", "JSONStringFormatter.escape", None, "escape", "escape() or the marker constants not found")
         return
-    etxt = ast.unparse(esc.node)
+    etxt = code(esc.node)
     for attr, mk in sorted(texts.items()):
         ch = mk[0]
         if repr(ch)[1:-1] in etxt.replace("\\", "\\"):
